@@ -100,6 +100,13 @@ def uniform_actions_skel(name, states, actions, supp, absorbing=(), init=None, z
     return Skel(name, states, {s: tuple(actions) for s in states}, supp, absorbing=absorbing, init=init, zero_prob=zero_prob)
 
 
+def family_state_dependent_actions():
+    """POMDPs whose action sets depend on the state (legal for a tabular POMDP; the belief MDP and the planners assume uniform action sets, so these
+    skeletons are used for the filters only, on beliefs supported where the action is available).  `go` is legal in `l` and leads to `r`, where it is not."""
+    m = Skel('m2sd', ['l', 'r'], {'l': ('go',), 'r': ('stay',)}, {('l', 'go'): ('l', 'r'), ('r', 'stay'): ('r',)}, init=['l'])
+    return [POSkel('p222-state-dependent-actions', m, {('go', 'l'): ('o1',), ('go', 'r'): ('o1', 'o2'), ('stay', 'l'): ('o2',), ('stay', 'r'): ('o2', 'o1')})]
+
+
 def family(tier='quick', seed=0):
     F = []
     # (S,A,O) = (2,1,2): one action, noisy observation of the next state
